@@ -297,6 +297,84 @@ pub fn vgather<T: Copy>(ls: &[T], idx: &[usize]) -> (r: Vec<T>)
     idx.iter().filter_map(|i| ls.get(*i).cloned()).collect::<Vec<_>>()
 }
 
+// ---- `$idx.iter().filter_map($closure)[.copied()].collect::<Vec<_>>()` with the
+// closure kept as extracted code ------------------------------------------------
+/// `<[T]>::get(i)` as a value (std: `Some(&s[i])` iff `i < s.len()`)
+pub open spec fn get_spec<T>(ls: Seq<T>, i: usize) -> Option<T> {
+    if i < ls.len() { Some(ls[i as int]) } else { None }
+}
+/// value of an `Option<&T>`
+pub open spec fn oref_val<T>(o: Option<&T>) -> Option<T> { match o { Some(x) => Some(*x), None => None } }
+/// the `Some` payloads, in order (what `filter_map` keeps)
+pub open spec fn flat<T>(os: Seq<Option<T>>) -> Seq<T>
+    decreases os.len(),
+{
+    if os.len() == 0 { Seq::empty() } else {
+        let rest = flat(os.drop_first());
+        match os[0] { Some(x) => seq![x] + rest, None => rest }
+    }
+}
+pub open spec fn flat_ref<T>(os: Seq<Option<&T>>) -> Seq<T>
+    decreases os.len(),
+{
+    if os.len() == 0 { Seq::empty() } else {
+        let rest = flat_ref(os.drop_first());
+        match os[0] { Some(x) => seq![*x] + rest, None => rest }
+    }
+}
+
+/// R12: `$idx.iter().filter_map($f).collect::<Vec<_>>()` — std meaning
+/// (iter/adapters/filter_map.rs): `$f` is called once per element, in order; the
+/// `Some` payloads are collected in that order.  The closure stays extracted
+/// code; this contract only quantifies over ITS post-condition.
+#[verifier::external_body]
+pub fn vfilter_map_collect<U, F: Fn(&usize) -> Option<U>>(idx: &[usize], f: F) -> (r: Vec<U>)
+    requires forall|i: &usize| #[trigger] f.requires((i,)),
+    ensures exists|os: Seq<Option<U>>| #![trigger flat(os)] os.len() == idx@.len()
+        && (forall|k: int| 0 <= k < idx@.len() ==> f.ensures((&idx@[k],), #[trigger] os[k]))
+        && r@ == flat(os),
+{ idx.iter().filter_map(f).collect::<Vec<_>>() }
+
+/// R12: `$idx.iter().filter_map($f).copied().collect::<Vec<_>>()` — as above, the
+/// payloads are references that `.copied()` dereferences.
+#[verifier::external_body]
+pub fn vfilter_map_copied_collect<'a, T: Copy + 'a, F: Fn(&usize) -> Option<&'a T>>(idx: &[usize], f: F) -> (r: Vec<T>)
+    requires forall|i: &usize| #[trigger] f.requires((i,)),
+    ensures exists|os: Seq<Option<&T>>| #![trigger flat_ref(os)] os.len() == idx@.len()
+        && (forall|k: int| 0 <= k < idx@.len() ==> f.ensures((&idx@[k],), #[trigger] os[k]))
+        && r@ == flat_ref(os),
+{ idx.iter().filter_map(f).copied().collect::<Vec<_>>() }
+
+/// R12: `$o.cloned()` on an `Option<&T>` at element types that are `Copy`
+/// ([u8; 32]): `Option::cloned` maps `Clone::clone`, which for a `Copy` type is
+/// the bitwise copy (vstd does not specify `clone` of arrays).
+#[verifier::external_body]
+pub fn ocloned<T: Copy>(o: Option<&T>) -> (r: Option<T>)
+    ensures r == oref_val(o),
+{ o.cloned() }
+
+/// a closure that answers `ls.get(i)` per index makes `filter_map` the `gather`
+pub proof fn lemma_flat_gather<T>(os: Seq<Option<T>>, ls: Seq<T>, idx: Seq<usize>)
+    requires os.len() == idx.len(), forall|k: int| 0 <= k < idx.len() ==> #[trigger] os[k] == get_spec(ls, idx[k]),
+    ensures flat(os) == gather(ls, idx),
+    decreases idx.len(),
+{
+    if idx.len() > 0 {
+        lemma_flat_gather(os.drop_first(), ls, idx.drop_first());
+        assert(os[0] == get_spec(ls, idx[0]));
+    }
+}
+pub proof fn lemma_flat_ref_gather<T>(os: Seq<Option<&T>>, ls: Seq<T>, idx: Seq<usize>)
+    requires os.len() == idx.len(), forall|k: int| 0 <= k < idx.len() ==> oref_val(#[trigger] os[k]) == get_spec(ls, idx[k]),
+    ensures flat_ref(os) == gather(ls, idx),
+    decreases idx.len(),
+{
+    if idx.len() > 0 {
+        lemma_flat_ref_gather(os.drop_first(), ls, idx.drop_first());
+        assert(oref_val(os[0]) == get_spec(ls, idx[0]));
+    }
+}
+
 /// R12: `$s.to_vec()` at element types that are `Copy` (usize, [u8; 32]):
 /// a vector holding the same elements
 #[verifier::external_body]
